@@ -13,8 +13,9 @@ from typing import Dict, List, Optional, Set
 
 from .. import astutil as A
 from .. import flow as F
+from .. import guards as G
 from .. import instrs as I
-from ..model import AnalysisError, dotted, src
+from ..model import AnalysisError, Unknown, dotted, src
 
 TECHNIQUE = "must-pass-through path rule (pop => reset) on the CFG with callee summaries; exhaustiveness of template substitution (static analysis)"
 ENGINES = ["model", "flow", "instrs"]
@@ -181,15 +182,29 @@ def run(ctx):
         if ok_inner:
             il = inner[0]
             ov = il.target.id
-            ifs = [st for st in il.body if isinstance(st, ast.If)]
-            ok_sub = False
-            if len(ifs) == 1 and len(il.body) == 1:
-                t = ifs[0].test
-                is_t = isinstance(t, ast.Call) and dotted(t.func) == "isinstance" and A.norm(t.args[0]) == ov and A.norm(t.args[1]) == "Template"
-                app_t = [x for s2 in ifs[0].body for x in ast.walk(s2) if isinstance(x, ast.Call) and A.call_name(x) == "append"]
-                app_f = [x for s2 in ifs[0].orelse for x in ast.walk(s2) if isinstance(x, ast.Call) and A.call_name(x) == "append"]
-                ok_sub = is_t and len(app_t) == 1 and len(app_f) == 1 and A.norm(app_t[0].args[0]) == f"{params[2]}[{ov}.name]" and A.norm(app_f[0].args[0]) == ov \
-                    and A.norm(app_t[0].func.value) == A.norm(app_f[0].func.value)
+            # the inner loop body is executed abstractly for a Template operand and for an ordinary one: exactly one value is
+            # appended per operand, the template's argument resp. the operand itself, to the same list
+            ARG = G.Sym("argument value")
+            results = {}
+            try:
+                for kind in ("Template", "Register"):
+                    opv = G.Sym(kind)
+                    got = []
+
+                    def on_call(c, env_, got=got):
+                        if isinstance(c.func, ast.Attribute) and c.func.attr == "append" and len(c.args) == 1:
+                            try:
+                                got.append((A.norm(c.func.value), G.peval(c.args[0], env_)))
+                            except Unknown:
+                                got.append((A.norm(c.func.value), "?"))
+
+                    env = {ov: opv, f"{params[2]}[{ov}.name]": ARG, params[2]: G.Sym("dict")}
+                    G.run_block(il.body, env, on_call)
+                    results[kind] = (got, opv)
+                (gt, _), (gr, opr) = results["Template"], results["Register"]
+                ok_sub = len(gt) == 1 and len(gr) == 1 and gt[0][1] is ARG and gr[0][1] is opr and gt[0][0] == gr[0][0]
+            except Unknown:
+                ok_sub = False
             ctx.check("C06.I", "instantiate:template-replaced-by-its-argument-others-kept", ok_sub,
                       "instantiate does not append arguments[op.name] for Template operands and the operand itself otherwise, in order", sub.loc(il))
         rebuilt = [x for x in A.calls_in(lp) if A.call_name(x) == "from_operands"]
